@@ -187,7 +187,16 @@ def run(F, R):
             if nd2.ctx is not bctx:
                 # resolved up to the function's own terms
                 pass
-            rt = [x for x in walk(bi_.trace_local(0)) if x[0] == "agg" and x[1] == "tuple" and len(x[3]) == 2]
+            ret0_ = bi_.trace_local(0)
+            rt = []
+            for alt_ in (ret0_[1] if ret0_[0] == "phi" else [ret0_]):
+                # the (intermediate, metadata) pair under Ok(..) of the return value itself, not a pair somewhere inside it
+                if alt_[0] == "agg" and alt_[1] == "adt" and (alt_[2] or "").endswith("Result::Ok") and alt_[3]:
+                    x_ = terms._unref(alt_[3][0])
+                    if x_[0] == "agg" and x_[1] == "tuple" and len(x_[3]) == 2:
+                        rt.append(x_)
+            if not rt:
+                rt = [x for x in walk(ret0_) if x[0] == "agg" and x[1] == "tuple" and len(x[3]) == 2]
             same = False
             if rt:
                 mine = terms._unref(rt[0][3][0])
